@@ -98,3 +98,83 @@ func Harness_C13_denselattice_laws() {
 	vassert(d.Equals(d.Merge(d.Ident(), a), a), "dense Ident is a left identity")
 	vreach("end")
 }
+
+// ---- the same laws over an element lattice whose identity is not the zero
+// value: 4-bit sets under intersection (Ident = all ones) ----
+
+type c13Inter struct{}
+
+func (c13Inter) Ident() c13Bits             { return 15 }
+func (c13Inter) Equals(a, b c13Bits) bool   { return a == b }
+func (c13Inter) Merge(a, b c13Bits) c13Bits { return a & b }
+
+type c13MLI = MapLattice[int, c13Bits, c13Inter]
+
+func c13MapI() map[int]c13Bits {
+	if nondetBool() {
+		return nil
+	}
+	m := map[int]c13Bits{}
+	for k := 0; k < 2; k++ {
+		if nondetBool() {
+			v := c13Bits(nondetUint8())
+			vassume(v < 15) // no Ident values are stored
+			m[k] = v
+		}
+	}
+	return m
+}
+
+func c13MapIAt(m map[int]c13Bits, k int) c13Bits {
+	if v, ok := m[k]; ok {
+		return v
+	}
+	return 15 // missing = Ident
+}
+
+func Harness_C13_maplattice_laws_inter() {
+	var ml c13MLI
+	a, b, c := c13MapI(), c13MapI(), c13MapI()
+	ab := ml.Merge(a, b)
+	same := true
+	for k := 0; k < 2; k++ {
+		vassert(c13MapIAt(ab, k) == c13MapIAt(a, k)&c13MapIAt(b, k), "map Merge is the pointwise element merge (missing keys read as Ident)")
+		if c13MapIAt(a, k) != c13MapIAt(b, k) {
+			same = false
+		}
+	}
+	vassert(ml.Equals(a, b) == same, "map Equals is pointwise equality (no Ident values stored)")
+	vassert(ml.Equals(ml.Merge(ab, c), ml.Merge(a, ml.Merge(b, c))), "map Merge is associative")
+	vassert(ml.Equals(ab, ml.Merge(b, a)), "map Merge is commutative")
+	vassert(ml.Equals(ml.Merge(a, a), a), "map Merge is idempotent")
+	vassert(ml.Equals(ml.Merge(a, ml.Ident()), a), "map Ident is a right identity")
+	vassert(ml.Equals(ml.Merge(ml.Ident(), a), a), "map Ident is a left identity")
+	vreach("end")
+}
+
+type c13DLI = DenseMapLattice[c13Bits, c13Inter]
+
+func c13DenseIAt(s []c13Bits, k int) c13Bits {
+	if k < len(s) {
+		return s[k]
+	}
+	return 15
+}
+
+func Harness_C13_denselattice_laws_inter() {
+	var d c13DLI
+	a, b, c := c13DenseSlice(), c13DenseSlice(), c13DenseSlice()
+	ab := d.Merge(a, b)
+	var diff c13Bits
+	for k := 0; k < 4; k++ {
+		vassert(c13DenseIAt(ab, k) == c13DenseIAt(a, k)&c13DenseIAt(b, k), "dense Merge is the pointwise element merge (missing entries read as Ident)")
+		diff |= c13DenseIAt(a, k) ^ c13DenseIAt(b, k)
+	}
+	vassert(d.Equals(a, b) == (diff == 0), "dense Equals is pointwise equality with missing entries read as Ident")
+	vassert(d.Equals(d.Merge(ab, c), d.Merge(a, d.Merge(b, c))), "dense Merge is associative")
+	vassert(d.Equals(ab, d.Merge(b, a)), "dense Merge is commutative")
+	vassert(d.Equals(d.Merge(a, a), a), "dense Merge is idempotent")
+	vassert(d.Equals(d.Merge(a, d.Ident()), a), "dense Ident is a right identity")
+	vassert(d.Equals(d.Merge(d.Ident(), a), a), "dense Ident is a left identity")
+	vreach("end")
+}
